@@ -101,6 +101,18 @@ def frame_check(design, passname, foreign=False):
         if w._block is not B:
             probs.append('result wire %s belongs to another block' % w.name)
             break
+    # no mutable container is shared between the two blocks (a later in-place edit of one - its legal_ops,
+    # its name map, ... - must not reach the other)
+    for attr, va in sorted(vars(A).items()):
+        vb = vars(B).get(attr)
+        if isinstance(va, (set, dict, list)) and va is vb:
+            probs.append('Block.%s is one %s object shared by source and result' % (attr, type(va).__name__))
+    for mo_a in set(n.op_param[1] for n in A.logic if n.op in 'm@'):
+        for mo_b in set(n.op_param[1] for n in B.logic if n.op in 'm@'):
+            for attr, va in vars(mo_a).items():
+                vb = vars(mo_b).get(attr)
+                if isinstance(va, (set, dict, list)) and va is vb and attr not in ('data',):
+                    probs.append('memory attribute %s is one object shared by source and result' % attr)
     # attribute preservation for plain copies
     if passname == 'copy_block':
         an = {w.name: w for w in A.wirevector_set}
